@@ -255,20 +255,19 @@ func (p *Packet) NewData(data interface{}, dims []int16) error {
 		return fmt.Errorf("could not handle Packet.NewData of type %v", reflect.TypeOf(d))
 	}
 	hdrlen += 8 + 8*(1+ndim/4)
-	// Check the size before it is truncated to the header's 16-bit payload length, and change
-	// the packet only when it can hold the data.
 	payloadBytes := pfmt.wordlen * nsamples
-	if hdrlen+payloadBytes > maxPACKETLENGTH {
-		return fmt.Errorf("packet length %d exceeds max of %d", hdrlen+payloadBytes, maxPACKETLENGTH)
-	}
 	p.headerLength = uint8(hdrlen)
 	p.payloadLength = uint16(payloadBytes)
-	p.packetLength = hdrlen + payloadBytes
 	p.Data = data
 	p.format = pfmt
 	p.shape = new(headPayloadShape)
 	p.shape.Sizes = make([]int16, ndim)
 	copy(p.shape.Sizes, dims)
+	// Check the size as it is before truncation to the header's 16-bit payload length.
+	p.packetLength = hdrlen + payloadBytes
+	if p.packetLength > maxPACKETLENGTH {
+		return fmt.Errorf("packet length %d exceeds max of %d", p.packetLength, maxPACKETLENGTH)
+	}
 	p.sequenceNumber++
 	return nil
 }
